@@ -30,7 +30,15 @@ pub fn share_unnamed(t: &mut Tape, nodes: &mut Vec<cs::SchemaNode>) -> usize {
 				s.push(')');
 				s
 			}
-			cs::RegularType::Record(_) | cs::RegularType::Enum(_) | cs::RegularType::Fixed(_) => return None,
+			// a named type is one node, shared by every reference: two unnamed sub-trees that reach the same
+			// named node are the same schema. (A redirection can therefore close a cycle, e.g. the root
+			// union [null, R] re-entered from R's own field - always through the named node, so expressible.)
+			cs::RegularType::Record(_) | cs::RegularType::Enum(_) | cs::RegularType::Fixed(_) => {
+				if depth == 0 {
+					return None;
+				}
+				format!("N{idx}")
+			}
 			other => format!("{other:?}[{l}]"),
 		})
 	}
@@ -42,7 +50,7 @@ pub fn share_unnamed(t: &mut Tape, nodes: &mut Vec<cs::SchemaNode>) -> usize {
 		let i = k.idx();
 		if let Some(Some(sig)) = sigs.get(i) {
 			// earliest other node with the same signature
-			if let Some(j) = (0..n).find(|&j| j != i && j != 0 && sigs[j].as_ref() == Some(sig)) {
+			if let Some(j) = (0..n).find(|&j| j != i && sigs[j].as_ref() == Some(sig)) {
 				if t.chance(120) {
 					*k = cs::SchemaKey::from_idx(j);
 					*shared += 1;
